@@ -81,6 +81,8 @@ func VerifC17_BigFiles() {
 		installModels(16)
 		theHash.off = true
 		verifrt.Override("encoding/asn1.Unmarshal", leanUnmarshal)
+		// the real PEM detection runs on the big documents as well (it must not read more than a first line's worth)
+		verifrt.ClearOverride("github.com/gr33nbl00d/caddy-revocation-validator/core/pemreader.IsPemFile")
 		algOID = oidTable[0]
 		extsModel = []pkix.Extension{{Id: oidAKI, Value: []byte{1, 2, 3, 4}}}
 		s := shape{hasVersion: true, hasNext: true, hasList: true, hasExt: true, k: k, cls: 2, entryLen: 60000}
